@@ -2,7 +2,7 @@
 \* GEN front end for C01: builds expression cases step by step (so that BFS enumerates the scope on all workers
 \* and -simulate samples deep trees) and prints one CASE line per complete case with the meaning BclSem gives it.
 EXTENDS BclSem, Json
-CONSTANTS Scope,      \* "types" | "shape" | "sim"
+CONSTANTS Scope,      \* "types" | "prec" | "shape" | "sim"
           ShapeLeaves \* number of leaves used by the shape scope (3 or 4)
 
 I(n) == Lit(IntV(n))
@@ -27,7 +27,7 @@ Styles == {"print", "field", "var", "fld"}
 
 \* ---- the "shape" scope: every tree with two operator levels over a small pool (precedence x associativity x short-circuit)
 LeavesS == IF ShapeLeaves = 4 THEN { I(1), I(2), I(3), Id("x") } ELSE { I(1), I(2), Id("x") }
-OpsS == {"+", "-", "*", "/", "<", "<=", "==", "!=", "and", "or"}
+OpsS == {"+", "-", "*", "/", "<", "<=", ">", ">=", "==", "!=", "and", "or"}
 D1S == LeavesS \cup { Bin(o, a, b) : o \in OpsS, a \in LeavesS, b \in LeavesS } \cup { Un(o, a) : o \in {"-", "not"}, a \in LeavesS }
           \cup { Asg("x", a) : a \in LeavesS }
 TopS == OpsS \cup {"neg", "not", "par", "parr", "asg"}
@@ -63,6 +63,20 @@ S2 == phase = 1 /\ Scope = "shape" /\ \E a \in D1S : ea' = a /\ phase' = 2 /\ UN
 S3 == /\ phase = 2 /\ Scope = "shape"
       /\ \E b \in (IF form \in {"neg", "not"} THEN {NoX} ELSE D1S) : eb' = b
       /\ style' = "print" /\ phase' = 3 /\ UNCHANGED <<form, ea, ok>>
+\* ---- prec scope: every ordered pair of operators in both groupings (and with the unary forms on either operand), over leaf
+\* triples that make the two groupings differ in value or in failing: precedence x associativity of every operator token
+Trip == { <<I(1), I(2), I(3)>>, <<I(2), I(2), I(1)>>, <<I(7), I(0), I(2)>>, <<Lit(BoolV(TRUE)), I(2), I(2)>>, <<S(<<97>>), S(<<98>>), I(2)>>, <<Id("x"), I(1), F(1, 2)>> }
+PrecForms == { <<o1, o2, g>> : o1 \in BinOps, o2 \in BinOps, g \in {"L", "R"} } \cup { <<o, u, g>> : o \in BinOps, u \in {"u-", "unot", "u+"}, g \in {"OUT", "INL", "INR"} }
+MkP(pf, t) == LET a == t[1] b == t[2] c == t[3] IN
+              CASE pf[3] = "L" -> Bin(pf[1], Bin(pf[2], a, b), c)
+                [] pf[3] = "R" -> Bin(pf[1], a, Bin(pf[2], b, c))
+                [] pf[3] = "OUT" -> Un(UnOf(pf[2]), Bin(pf[1], a, b))
+                [] pf[3] = "INL" -> Bin(pf[1], Un(UnOf(pf[2]), a), b)
+                [] pf[3] = "INR" -> Bin(pf[1], a, Un(UnOf(pf[2]), b))
+P1 == phase = 0 /\ Scope = "prec" /\ \E o \in BinOps : form' = o /\ phase' = 1 /\ UNCHANGED <<ea, eb, style, ok>>
+P2 == /\ phase = 1 /\ Scope = "prec"
+      /\ \E pf \in { x \in PrecForms : x[1] = form }, t \in Trip : ea' = MkP(pf, t)
+      /\ eb' = NoX /\ style' = "print" /\ phase' = 3 /\ UNCHANGED <<form, ok>>
 \* ---- sim scope (run with -simulate): two registers grown by random steps; a register that already fails is not grown further,
 \* so every tree evaluates completely except possibly at its root (type-directed sampling)
 LeavesR == { I(0), I(1), I(2), I(7), F(1, 2), F(5, 2), S(<<>>), S(<<97>>), Lit(BoolV(TRUE)), Lit(BoolV(FALSE)), Lit(NilV), Id("x") }
@@ -79,7 +93,7 @@ RGrow == /\ phase = 10 /\ Scope = "sim" /\ ok
             \/ \E o \in BinOps, l \in LeavesR : eb' \in { Bin(o, eb, l), Bin(o, l, eb) } /\ ea' = ea
          /\ ok' = (Good(ea') /\ Good(eb'))
          /\ UNCHANGED <<phase, form, style>>
-Next == T1 \/ T2 \/ T3 \/ S1 \/ S2 \/ S3 \/ R0 \/ RGrow
+Next == T1 \/ T2 \/ T3 \/ P1 \/ P2 \/ S1 \/ S2 \/ S3 \/ R0 \/ RGrow
 Spec == Init /\ [][Next]_vars
 
 \* ---- the exported case
@@ -98,7 +112,7 @@ CaseOf(prog, nt) ==
     bkind |-> m.binding.kind, bblocks |-> [i \in 1..Len(m.binding.blocks) |-> BlkJ(m.binding.blocks[i])], nt |-> nt ]
 TheExpr == IF Scope = "types" THEN Mk(form, ea, eb) ELSE IF Scope = "shape" THEN MkS(form, ea, eb) ELSE ea
 TheProg == IF Scope = "types" THEN ProgOf(form, ea, eb, style) ELSE << X3, SPrint(TheExpr), SPrint(Id("x")) >>
-NonTrivial == Ops(TheExpr) >= 2 \/ (Ops(TheExpr) = 1 /\ form \in BinOps /\ KindOf(ea) # KindOf(eb))
+NonTrivial == Ops(TheExpr) >= 2 \/ (Ops(TheExpr) = 1 /\ Scope = "types" /\ form \in BinOps /\ KindOf(ea) # KindOf(eb))
 Emit == (phase = 3 \/ phase = 10) => PrintT(<<"CASE", ToJson(CaseOf(TheProg, NonTrivial))>>)
 \* design-level sanity: rendering never produces an empty program and Meaning is total
 TypeOK == phase \in {0, 1, 2, 3, 10}
